@@ -1,6 +1,6 @@
 (* C42 — Sortition pool status changes are only requested when permitted.
    ONLY property statements; proofs are in Proofs/C42.v. *)
-From Coq Require Import List Bool.
+From Coq Require Import List Bool ZArith.
 From KV Require Import Model.C42 Proofs.C42.
 Import ListNotations.
 
@@ -65,12 +65,73 @@ Theorem spec_ok_sound : forall w p txs,
 Proof. exact Proofs.C42.spec_ok_sound. Qed.
 Print Assumptions spec_ok_sound.
 
-(* ... and holds of every model output, for every history of worlds *)
+(* ... and holds of every model output *)
 Theorem model_passes_spec : forall w p, spec_ok w p (fst (monitor_first w p)) = true.
 Proof. exact Proofs.C42.model_passes_spec. Qed.
 Print Assumptions model_passes_spec.
 
-Theorem history_permitted : forall p (ws : list world),
-  Forall (fun w => forall t, In t (fst (monitor_first w p)) -> permitted_prop w p t) ws.
+(* ---- histories on ONE long-lived policy object (what MonitorPool does) ---- *)
+
+(* a ShouldJoin call on the policy object answers the pure per-tick decision and leaves the whole
+   object graph (nested conjunctions included) exactly as it was *)
+Theorem should_join_leaves_policy_unchanged : forall w p,
+  should_join_st w p = (should_join w p, p).
+Proof. exact Proofs.C42.should_join_st_pure. Qed.
+Print Assumptions should_join_leaves_policy_unchanged.
+
+(* the model of MonitorPool's loop threads the policy object through the ticks; its output is
+   nevertheless the per-tick decision mapped over the history: no memory across ticks *)
+Theorem history_no_memory : forall p ws, history_st p ws = map (tick p) ws.
+Proof. exact Proofs.C42.history_no_memory. Qed.
+Print Assumptions history_no_memory.
+
+Theorem history_past_future_irrelevant : forall p before after w,
+  nth_error (history_st p (before ++ w :: after)) (length before) = Some (tick p w).
+Proof. exact Proofs.C42.history_past_future_irrelevant. Qed.
+Print Assumptions history_past_future_irrelevant.
+
+Theorem monitor_history : forall reg p ws,
+  monitor reg p ws = match reg with ATrue => (map (tick p) ws, false) | _ => ([], true) end.
+Proof. exact Proofs.C42.monitor_history. Qed.
+Print Assumptions monitor_history.
+
+(* the property for every history: at every tick every request is permitted by THAT tick's
+   answers (in pool / up to date / locked / policy / can-restore at that tick) *)
+Theorem history_permitted : forall p ws i w o,
+  nth_error ws i = Some w -> nth_error (history_st p ws) i = Some o ->
+  forall t, In t (fst (fst o)) -> permitted_prop w p t.
 Proof. exact Proofs.C42.history_permitted. Qed.
 Print Assumptions history_permitted.
+
+(* a conjunction joins at a tick only if every one of its parts says yes at that very tick *)
+Theorem history_join_needs_every_part : forall ps ws i w o,
+  nth_error ws i = Some w -> nth_error (history_st (PConj ps) ws) i = Some o ->
+  In Join (fst (fst o)) ->
+  in_pool w = AFalse /\ up_to_date w = AFalse /\ locked w = AFalse /\
+  forall q, In q ps -> should_join w q = true.
+Proof. exact Proofs.C42.history_join_needs_every_part. Qed.
+Print Assumptions history_join_needs_every_part.
+
+(* the policy is consulted only when the check reaches the joining decision *)
+Theorem policy_consulted_only_when_needed : forall w p,
+  asks_policy w = false -> tick p w = tick PUncond w.
+Proof. exact Proofs.C42.policy_consulted_only_when_needed. Qed.
+Print Assumptions policy_consulted_only_when_needed.
+
+(* the executable history spec evaluated on the implementation's observed requests is exactly the
+   history property, it holds of every model history, and the judge accepts every model history *)
+Theorem hist_spec_sound : forall p steps,
+  hist_spec p steps = true <->
+  (forall s, In s steps -> forall t, In t (s_txs s) -> permitted_prop (s_world s) p t).
+Proof. exact Proofs.C42.hist_spec_sound. Qed.
+Print Assumptions hist_spec_sound.
+
+Theorem model_passes_hist_spec : forall p ws, hist_spec p (map (model_step p) ws) = true.
+Proof. exact Proofs.C42.model_passes_hist_spec. Qed.
+Print Assumptions model_passes_hist_spec.
+
+Theorem judge_accepts_model : forall p ws, ws <> [] ->
+  judge {| c_registered := ATrue; c_policy := p; c_steps := map (model_step p) ws;
+           c_monitor_err := false |} = Common.Verdict.Agree.
+Proof. exact Proofs.C42.judge_accepts_model. Qed.
+Print Assumptions judge_accepts_model.
